@@ -25,6 +25,7 @@ void ent_reset_counters(void);
 long ent_draws(void);                    // draws since reset (including a failed one)
 long ent_bytes(void);                    // bytes delivered since reset
 int  ent_failed(void);                   // a failure was injected since reset
+long ent_failures(void);                 // number of failed draws on this thread (never reset)
 void ent_log(int on);
 void ent_tag(const char *who);           // "who" field of this thread's Draw events                    // emit a "Draw" trace event per draw
 // the last draws (ring of 256 entries) for harnesses that need the drawn bytes
